@@ -149,11 +149,13 @@ class ObjMixin:
             r = hook(self, obj, name)
             if r is not MISSING:
                 return r
+        if name == '__getattribute__':
+            return Builtin('__getattribute__', lambda n, _o=obj: self.raw_getattribute(_o, n))
+        if name == '__setattr__':
+            return Builtin('__setattr__', lambda n, v_, _o=obj: self.raw_setattr(_o, n, v_), pure=False)
         ga, _ = obj.cls.lookup('__getattr__')
         if ga is not None and name != '__getattr__':
             return self.call(BoundMethod(obj, ga), [name], {})
-        if name == '__getattribute__':
-            return Builtin('__getattribute__', lambda n, _o=obj: self.raw_getattribute(_o, n))
         self.attr_error(obj, name)
 
     def raw_getattribute(self, obj, name):
